@@ -392,9 +392,7 @@ func fromOrig(c common, orig any) (Manifest, error) {
 	if _, ok := orig.(schema1.SignedManifest); !ok {
 		c.desc.Digest = c.desc.DigestAlgo().FromBytes(mj)
 	}
-	if c.desc.Size == 0 {
-		c.desc.Size = int64(len(mj))
-	}
+	c.desc.Size = int64(len(mj))
 	// create manifest based on type
 	switch mOrig := orig.(type) {
 	case schema1.Manifest:
